@@ -451,8 +451,17 @@ fn main() {
 		let spans: Vec<usize> = cfgs.iter().map(|c| span_of(c.as_ref()).min(60)).collect();
 		for (tag, al) in [("rounding-active", r_candles()), ("dyadic", alpha::k_candles()), ("ulp-spreads", ulp_candles())] {
 			let few = cfgs.len() <= 14;
-			let d1 = if is_mon { if thorough { 5 } else if few && tag == "rounding-active" { 4 } else if few || tag == "rounding-active" { 3 } else { 2 } } else if thorough { 3 } else { 2 };
-			let sys = RangeSys { name: format!("{name}/regimes/{tag}"), cfgs: cfgs.iter().map(|c| c.boxed_clone()).collect(), spans: spans.clone(), alphabet: al, d1, d3: if thorough { 3 } else { 2 } };
+			// (thorough used 5 / 3 everywhere at first: more than an hour, with 600 s caps hit)
+			let d1 = if tag == "ulp-spreads" {
+				if thorough && is_mon { 3 } else { 2 }
+			} else if is_mon {
+				if thorough { if few { 5 } else { 4 } } else if few && tag == "rounding-active" { 4 } else if few || tag == "rounding-active" { 3 } else { 2 }
+			} else if thorough {
+				3
+			} else {
+				2
+			};
+			let sys = RangeSys { name: format!("{name}/regimes/{tag}"), cfgs: cfgs.iter().map(|c| c.boxed_clone()).collect(), spans: spans.clone(), alphabet: al, d1, d3: if thorough && few && tag != "ulp-spreads" { 3 } else { 2 } };
 			h.go(&sys, &Limits::depth(20).wall_secs(600), true);
 		}
 	}
